@@ -1415,13 +1415,15 @@ Lemma abs_c_delete_addrs del ct :
   abs (c_delete_addrs del ct) = map snd (filter (fun it => negb (mem_addr (fst it) del)) (arows ct)).
 Proof. apply abs_map_frags_delete. Qed.
 
-Lemma abs_map_frags_rewrite (G : addr -> row -> row) ct : forall fi,
-  abs (map_frags (fun fi f => [map_slots (fun a r => Some (G a r)) fi O f]) fi ct)
+Lemma abs_map_frags_rewrite (g : addr -> row -> option row) (G : addr -> row -> row) ct :
+  (forall a r, g a r = Some (G a r)) -> forall fi,
+  abs (map_frags (fun fi f => [map_slots g fi O f]) fi ct)
   = map (fun it => G (fst it) (snd it)) (arows_from fi ct).
 Proof.
-  induction ct as [|f ct IH]; intro fi; [reflexivity|].
+  intro Hg. induction ct as [|f ct IH]; intro fi; [reflexivity|].
   cbn [map_frags arows_from]. rewrite abs_app, map_app, IH. f_equal.
-  unfold abs. cbn [flat_map]. rewrite app_nil_r, live_map_slots, map_as_flat_map. reflexivity.
+  unfold abs. cbn [flat_map]. rewrite app_nil_r, live_map_slots, map_as_flat_map.
+  apply flat_map_ext_in. intros it _. rewrite Hg. reflexivity.
 Qed.
 
 (* addresses of the live slots are pairwise different *)
@@ -1435,7 +1437,7 @@ Qed.
 Lemma number_slots_nodup fi f : forall o, NoDup (map fst (number_slots fi o f)).
 Proof.
   induction f as [|[r|] f IH]; intro o; cbn [number_slots map]; [constructor| |apply IH].
-  constructor; [|apply IH]. intro H. destruct (number_slots_addr fi f (S o) _ H) as [_ L]. cbn [snd] in L. lia.
+  constructor; [|apply IH]. intro H. destruct (number_slots_addr fi f (S o) _ H) as [_ L]. cbn [fst snd] in L. lia.
 Qed.
 
 Lemma arows_from_addr ct : forall fi a, In a (map fst (arows_from fi ct)) -> (fi <= fst a)%nat.
@@ -1479,6 +1481,6 @@ Proof.
   destruct (full_schema st).
   - cbn [r_rows]. rewrite abs_app, new_frag_abs, abs_c_delete_addrs. reflexivity.
   - cbn [r_rows]. rewrite abs_app, new_frag_abs. f_equal. unfold arows.
-    rewrite (abs_map_frags_rewrite (fun a r => match find_upd a (s_upd s) with Some u => upd_row st u r | None => r end)).
-    + reflexivity.
+    apply (abs_map_frags_rewrite _ (fun a r => match find_upd a (s_upd s) with Some u => upd_row st u r | None => r end)).
+    intros a r. destruct (find_upd a (s_upd s)); reflexivity.
 Qed.
